@@ -105,6 +105,44 @@ def gen_cases(n, s, tier):
     return cases, srcs
 
 
+def grid_leg(rep, svh, flavor, st):
+    """Small-scope exhaustive grid over builtin functions and methods (gen_grid): CPython evaluates each expression,
+    starlark-rust evaluates emit(attempt(lambda: <expr>)); ok/err must agree and ok values must be equal."""
+    import gen_grid
+    ex = sorted(set(gen_grid.exprs()))
+    nch = 32
+    chunks = [ex[i::nch] for i in range(nch)]
+    cases = [{"id": "g%d" % i, "cfg": {"dialect": "extended"}, "units": [{"file": "g.star", "src": "".join("emit(attempt(lambda: %s))\n" % e for e in ch)}]} for i, ch in enumerate(chunks)]
+    batch = common.run_cases(svh, "run", cases, "c01g_" + flavor, shards=NCPU, timeout=3000)
+    for cr in batch.crashes:
+        rep.violation(common.crash_signature(cr), "[%s] runner crashed on grid chunk %s" % (flavor, cr["id"]), {"flavor": flavor, "crash": cr.get("confirm")})
+    for inc in batch.inconclusive:
+        rep.inconc(inc["why"], inc.get("id"))
+    for i, ch in enumerate(chunks):
+        evs = batch.events.get("g%d" % i)
+        if evs is None:
+            continue
+        got = [e[1] for e in evs if e[0] == "e"]
+        bad = [e for e in evs if e[0] == "r" and e[3] != "ok"]
+        if bad or len(got) != len(ch):
+            rep.violation("c01:grid-module-failed", "[%s] grid chunk %d: %d of %d results; %s" % (flavor, i, len(got), len(ch), json.dumps(bad)[:300]), {"flavor": flavor, "chunk": i})
+            continue
+        for e, g in zip(ch, got):
+            try:
+                p = ["ok", ref_py.canon(eval(e, {"__builtins__": __builtins__}))]
+            except Exception as x:  # noqa
+                p = ["err", type(x).__name__]
+            st["grid"] += 1
+            sok = isinstance(g, list) and len(g) == 3 and g[1] == "sok"
+            same = (p[0] == "ok" and sok and p[1] == g[2]) or (p[0] == "err" and not sok)
+            if same:
+                st["grid_ok" if sok else "grid_err"] += 1
+                continue
+            shape = re.sub(r"-?[0-9]+", "N", re.sub(r'"[^"]*"', "S", e))[:60]
+            rep.violation("c01:grid:%s:%s" % ("value" if (p[0] == "ok" and sok) else "ok-vs-err", shape),
+                          "[%s] %s  ->  starlark %s, python %s" % (flavor, e, json.dumps(g)[:200], json.dumps(p)[:200]), {"flavor": flavor, "expr": e, "starlark": g, "python": p})
+
+
 def compare(cid, src, star_events, py):
     """Returns None if they agree, else (signature, description)."""
     evs, out = star_outcome(star_events, "p.star")
@@ -154,8 +192,10 @@ def run(tier):
     classes = {}
     distinct = set()
     samples = []
+    gst = {"grid": 0, "grid_ok": 0, "grid_err": 0}
     for flavor in flavors:
         svh = os.path.join(common.build(flavor), "svh")
+        grid_leg(rep, svh, flavor, gst)
         batch = common.run_cases(svh, "run", cases, "c01_" + flavor, shards=NCPU)
         for cr in batch.crashes:
             rep.violation(common.crash_signature(cr), "runner crashed on %s: %s" % (cr["id"], (cr.get("confirm") or {}).get("stderr", "")[-300:]),
@@ -193,7 +233,7 @@ def run(tier):
                 rep.violation("c01:%s:%s" % (sig, _focus(srcs[cid], p, batch.events[cid])), "[%s/%s] %s" % (flavor, cid, what),
                               {"flavor": flavor, "case": c, "python": p["outcome"], "python_events_tail": p["events"][-3:], "what": what})
     rep.coverage = {
-        "evaluations": stats["agree"] + len(rep.violations),
+        "evaluations": stats["agree"] + gst["grid"] + len(rep.violations),
         "distinct_nontrivial": len(distinct),
         "rule": "evaluation = one program text (module-level or in-function form) executed by starlark-rust and by CPython 3 with transcripts compared; "
                 "distinct_nontrivial = distinct transcripts (first 50 events) with at least 5 emitted values",
@@ -205,10 +245,13 @@ def run(tier):
         "agree_failing_programs": stats["err"],
         "failure_classes_seen": classes,
         "reference_rejected": stats["skipped"],
+        "api_grid_expressions_compared": gst["grid"],
+        "api_grid_agree_ok": gst["grid_ok"],
+        "api_grid_agree_error": gst["grid_err"],
     }
     rep.assumptions = ["CPython 3 (this image's python3) is the reference interpreter for the shared core",
                        "generator stays inside the shared subset (DESIGN.md C01 exclusion list)"]
-    rep.finish(sanity_ok=stats["agree"] > n, sanity_msg="too few comparable programs")
+    rep.finish(sanity_ok=stats["agree"] > n and gst["grid_ok"] > 10000 and gst["grid_err"] > 1000, sanity_msg="too few comparable programs / grid expressions")
 
 
 def _focus(src, p, star_events):
